@@ -56,6 +56,8 @@ pub fn unary_case<F: FpApi>(la: F, a: &N) -> Result<u32, Bad> {
     let z = N::zero();
     let ng = lib("neg", || -la)?;
     chk::<F>("-a", &ng, &negm(a, p), a, &z)?;
+    let ng2 = lib("neg by reference", || la.neg_ref())?;
+    chk::<F>("-&a", &ng2, &negm(a, p), a, &z)?;
     let iz = lib("is_zero", || la.is_zero_())?;
     ensure!(iz == a.is_zero(), "is_zero", "{} is_zero({:x}) = {}", F::NAME, a, iz);
     let bytes = lib("to_slice", || la.bytes())?;
@@ -89,7 +91,7 @@ pub fn unary_case<F: FpApi>(la: F, a: &N) -> Result<u32, Bad> {
     // reflexive equality, canonical round trip
     let back = lib("from_slice", || F::from_slice_(&bytes))?;
     ensure!(back == Some(la), "roundtrip", "{} from_slice(to_slice(a)) != a for {:x}", F::NAME, a);
-    Ok(9)
+    Ok(10)
 }
 pub fn pow_case<F: FpApi>(la: F, a: &N, e: &N) -> Result<(), Bad> {
     let p = F::modulus();
